@@ -99,7 +99,9 @@ pub fn apply(w: &mut RouterWorld, cfg: &Cfg, a: &Act) {
             let ci = *c as usize;
             let pkid = next_pkid(w, ci);
             let filters = vec![(cfg.filters[*f as usize].clone(), *qos)];
-            w.send(ci, vec![Tx::Subscribe { pkid, filters, sub_id: None }]);
+            // C20 variants 1 / 101: MQTT 5 subscribers use a subscription identifier
+            let sub_id = (cfg.prop == "C20" && cfg.variant % 100 == 1 && w.clients[ci].v5).then_some(7);
+            w.send(ci, vec![Tx::Subscribe { pkid, filters, sub_id }]);
         }
         Act::Sub2 { c, f1, f2, qos } => {
             let ci = *c as usize;
@@ -854,7 +856,7 @@ fn enabled_c20(w: &RouterWorld, cfg: &Cfg, v: &mut Vec<(Act, u8)>) {
     if live(w, p) {
         let max_props: u16 = if w.clients[0].v5 { 128 } else { 0 };
         for q in 0..3u8 {
-            if cfg.variant == 0 {
+            if cfg.variant <= 1 {
                 // every subset of the properties once (first publish), a few afterwards
                 let ks: Vec<u16> = if w.model.accepted.is_empty() && q == 1 {
                     (0..=max_props).collect()
